@@ -804,6 +804,14 @@ hwloc__xml_import_object(hwloc_topology_t topology,
     state->global->close_child(&childstate);
   }
 
+  if (!parent && obj->type != HWLOC_OBJ_MACHINE) {
+    /* the root is always a Machine since v2.0, the core relies on it */
+    if (hwloc__xml_verbose())
+      fprintf(stderr, "%s: root object must be a Machine instead of %s\n",
+              state->global->msgprefix, hwloc_obj_type_string(obj->type));
+    goto error_with_object;
+  }
+
   if (parent && obj->type == HWLOC_OBJ_MACHINE) {
     if (hwloc__xml_verbose())
       fprintf(stderr, "%s: Machine object cannot be a child object\n",
